@@ -4,7 +4,9 @@ CONSTANTS
   Callers = {1, 2, 3}
   Specs <- SpecsSim
   Msgs <- MsgsSim
-  Apis = {"wait", "fut", "exec"}
+  Apis = {"wait", "fut", "exec", "place"}
+  Timeouts = {"short", "long"}
+  MaxElapse = 2
   MaxFeeds = 4
   MaxBatch = 3
   MaxCancel = 2
@@ -17,6 +19,9 @@ CONSTANTS
   AllFieldMatchers = TRUE
   TicketBeforeRegister = TRUE
   LiveListAtCompletion = TRUE
+  ReleaseWhenSendCancelled = TRUE
+  TimeoutForwarded = TRUE
+  RegisterAfterSend = TRUE
 INVARIANT TypeOK
 INVARIANT OnlyMatching
 INVARIANT FirstMatching
